@@ -38,6 +38,14 @@ def generate(seed, tier, index):
             # a second set-up on the same engine object: the sampler must start afresh
             e = C.make_script_entry(rs.sub(j), ru.sub(j), rk.sub(j), kind, SPEC_P,
                                     {"steps": (2, 20), "allow_empty_ts": True, "p_ongrid": 0.2}, rich=rich)
+        ts_ = e["script"].get("t_sample")
+        if isinstance(ts_, list) and len(ts_) >= 1 and rf.chance(0.12):
+            # the script object is constructed with other requested times (fewer, or more and later ones) and gets the
+            # real list assigned afterwards: everything derived from the list (the default t_max) follows the assignment
+            if len(ts_) >= 2 and rf.chance(0.5):
+                e["pre_t_sample"] = ts_[:len(ts_) - rf.randint(1, len(ts_) - 1)]
+            else:
+                e["pre_t_sample"] = list(ts_) + [C._scaled(ts_[-1], k_) for k_ in (2.0, 3.5)]
         scripts.append(e)
         ops = C.observed_ops(rf, e["phys"]["sp"], kind, poison=rf.choice([0, 0x7f, 0xff]),
                              outputs=rf.wchoice([(1, 4), (2, 1)]))
